@@ -160,7 +160,8 @@ class Atom(BodyFormula):
             assert(step in range(0, ctx.horizon + 1))
             sym = _clingo.Function(self.__name, self.__arguments + [_clingo.Number(step)], self.__positive)
             sym_atom = ctx.symbols[sym]
-            data.literal = sym_atom.literal if sym_atom is not None else ctx.false_literal
+            # an atom in the atom base without a defining rule instance has literal 0 and is false
+            data.literal = sym_atom.literal if sym_atom is not None and sym_atom.literal != 0 else ctx.false_literal
 
 class NumericLiteral(BodyFormula):
     """
